@@ -26,25 +26,62 @@ function genSpec(seed, idx) {
   }
   const structs = [];
   const nStruct = rng.pick([0, 1, 1, 2]);
+  const defBoundsOf = (tyName, args) => {
+    const def = opaques.find((o) => o.name === tyName) || structs.find((x) => x.name === tyName) || outs.find((x) => x.name === tyName);
+    return def.bounds.map(([l, sh]) => [args[def.lts.indexOf(l)], args[def.lts.indexOf(sh)]]).filter(([l, sh]) => l !== sh);
+  };
+  const outs = [];
+  const finishBounds = (st) => {
+    // bounds a definition implies: `&'l O<'y>` implies 'y: 'l; used types contribute their own definition bounds
+    st.bounds = [];
+    const add = (l, sh) => { if (l !== sh && !st.bounds.some((b) => b[0] === l && b[1] === sh)) st.bounds.push([l, sh]); };
+    for (const f of st.fields) {
+      if (f.kind === "opaque") { for (const y of f.args) add(y, f.lt); for (const [l, sh] of defBoundsOf(f.ty, f.args)) add(l, sh); }
+      if (f.kind === "struct") for (const [l, sh] of defBoundsOf(f.ty, f.args)) add(l, sh);
+    }
+  };
   for (let i = 0; i < nStruct; i++) {
     const nl = 1 + rng.below(2);
     const lts = LTS.slice(0, nl);
     const fields = [];
     const nf = 1 + rng.below(3);
     for (let f = 0; f < nf; f++) {
-      const lt = rng.pick(lts);
-      if (rng.chance(2, 3)) {
+      const l = rng.pick(lts);
+      const r = rng.below(6);
+      if (r < 3) {
         const o = rng.pick(opaques);
-        // type arguments of a field's opaque all use the field's own reference lifetime: no
-        // definition-site cross bounds arise inside the struct
-        fields.push({ name: "f" + f, kind: "opaque", ty: o.name, lt, args: o.lts.map(() => lt) });
+        // mostly the field's own reference lifetime, sometimes another slot (which implies a definition bound)
+        fields.push({ name: "f" + f, kind: "opaque", ty: o.name, lt: l, args: o.lts.map(() => (rng.chance(1, 4) ? rng.pick(lts) : l)) });
+      } else if (r < 5 || !structs.length) {
+        // (optional slices are spelled DiplomatOption<..> inside structs)
+        fields.push({ name: "f" + f, kind: "slice", enc: rng.pick(["DiplomatStr", "str", "DiplomatStr16", "u8s"]), lt: l, opt: rng.chance(1, 3) });
       } else {
-        fields.push({ name: "f" + f, kind: "slice", enc: rng.pick(["DiplomatStr", "str", "DiplomatStr16", "u8s"]), lt });
+        const inner = rng.pick(structs); // only earlier structs: no cycles
+        fields.push({ name: "f" + f, kind: "struct", ty: inner.name, args: inner.lts.map(() => rng.pick(lts)) });
       }
     }
-    // every lifetime parameter of a struct must be used
-    for (const l of lts) if (!fields.some((f) => f.lt === l)) fields.push({ name: "f" + fields.length, kind: "slice", enc: "DiplomatStr", lt: l });
-    structs.push({ name: "S" + i, lts, fields });
+    const used = (l) => fields.some((f) => f.lt === l || (f.args || []).includes(l));
+    for (const l of lts) if (!used(l)) fields.push({ name: "f" + fields.length, kind: "slice", enc: "DiplomatStr", lt: l });
+    const st = { name: "S" + i, lts, fields };
+    finishBounds(st);
+    structs.push(st);
+  }
+  // out-structs: by-value returns whose fields are borrowed opaque references
+  const nOut = rng.pick([0, 1, 1]);
+  for (let i = 0; i < nOut; i++) {
+    const nl = 1 + rng.below(2);
+    const lts = LTS.slice(0, nl);
+    const fields = [];
+    const nf = 1 + rng.below(3);
+    for (let f = 0; f < nf; f++) {
+      const l = rng.pick(lts);
+      const o = rng.pick(opaques);
+      fields.push({ name: "f" + f, kind: "opaque", ty: o.name, lt: l, args: o.lts.map(() => (rng.chance(1, 3) ? rng.pick(lts) : l)), opt: rng.chance(1, 3) });
+    }
+    for (const l of lts) if (!fields.some((f) => f.lt === l || f.args.includes(l))) { const o = rng.pick(opaques); fields.push({ name: "f" + fields.length, kind: "opaque", ty: o.name, lt: l, args: o.lts.map(() => l), opt: false }); }
+    const st = { name: "R" + i, lts, fields, out: true };
+    finishBounds(st);
+    outs.push(st);
   }
   const methods = [];
   const nMethods = 1 + rng.below(6);
@@ -76,8 +113,9 @@ function genSpec(seed, idx) {
         params.push({ name: "p" + p, kind: "struct", ty: s.name, args: s.lts.map(() => same ?? anyLt()) });
       }
     }
-    const ro = rng.pick(opaques);
-    const rkind = rng.pick(["box", "box", "box", "ref", "optbox", "optref", "resbox"]);
+    let rkind = rng.pick(["box", "box", "box", "ref", "optbox", "optref", "resbox", "struct", "resstruct"]);
+    if ((rkind === "struct" || rkind === "resstruct") && !outs.length) rkind = "box";
+    const ro = rkind === "struct" || rkind === "resstruct" ? rng.pick(outs) : rng.pick(opaques);
     const ret = { kind: rkind, ty: ro.name, lt: rkind === "ref" || rkind === "optref" ? anyLt() : null, args: ro.lts.map(() => anyLt()) }; // ('static is not generated: the JS backend panics on it, which is C15's subject)
     // bounds: the ones definitions force (they must be spelled out), plus random extra ones
     const bounds = [];
@@ -85,19 +123,15 @@ function genSpec(seed, idx) {
       if (longer === shorter || longer === "static" || shorter === "static") return;
       if (!bounds.some((b) => b[0] === longer && b[1] === shorter)) bounds.push([longer, shorter]);
     };
-    const useDefBounds = (tyName, args) => {
-      const def = opaques.find((o) => o.name === tyName);
-      for (const [l, s] of def.bounds) addBound(args[def.lts.indexOf(l)], args[def.lts.indexOf(s)]);
-    };
-    for (const p of params) if (p.kind === "opaque" || p.kind === "optopaque") useDefBounds(p.ty, p.args);
-    for (const p of params) if (p.kind === "struct") { /* struct fields only use one lifetime per opaque: nothing forced */ }
+    const useDefBounds = (tyName, args) => { for (const [l, sh] of defBoundsOf(tyName, args)) addBound(l, sh); };
+    for (const p of params) if (p.kind !== "slice") useDefBounds(p.ty, p.args);
     useDefBounds(ret.ty, ret.args);
     const nExtra = rng.below(4);
     for (let e = 0; e < nExtra; e++) addBound(anyLt(), anyLt());
     const implBounds = owner.bounds.map(([l, s]) => ["s" + owner.lts.indexOf(l), "s" + owner.lts.indexOf(s)]);
     methods.push({ owner: owner.name, name: "m" + m, static: isStatic, lts, implLts, implBounds, self, params, ret, bounds });
   }
-  return { seed, idx, opaques, structs, methods };
+  return { seed, idx, opaques, structs, outs, methods };
 }
 
 // ---- Rust text --------------------------------------------------------------------------------------
@@ -125,6 +159,8 @@ function retTy(r) {
     case "ref": return "&" + lt(r.lt) + " " + inner;
     case "optbox": return "Option<Box<" + inner + ">>";
     case "optref": return "Option<&" + lt(r.lt) + " " + inner + ">";
+    case "struct": return inner;
+    case "resstruct": return "Result<" + inner + ", ()>";
     default: return "Result<Box<" + inner + ">, ()>";
   }
 }
@@ -133,14 +169,17 @@ function generics(lts, bounds) {
   return "<" + lts.map((l) => { const bs = bounds.filter((b) => b[0] === l).map((b) => lt(b[1])); return lt(l) + (bs.length ? ": " + bs.join(" + ") : ""); }).join(", ") + ">";
 }
 export function rustSource(spec) {
-  let s = "// generated by /verif/sim/js/gen.mjs — seed " + spec.seed + " bridge " + spec.idx + "\n#[diplomat::bridge]\nmod ffi {\n    use diplomat_runtime::{DiplomatSlice, DiplomatStr, DiplomatStr16, DiplomatStr16Slice, DiplomatStrSlice, DiplomatUtf8StrSlice};\n\n";
+  let s = "// generated by /verif/sim/js/gen.mjs — seed " + spec.seed + " bridge " + spec.idx + "\n#[diplomat::bridge]\nmod ffi {\n    use diplomat_runtime::{DiplomatOption, DiplomatSlice, DiplomatStr, DiplomatStr16, DiplomatStr16Slice, DiplomatStrSlice, DiplomatUtf8StrSlice};\n\n";
   for (const o of spec.opaques) {
     const fields = o.lts.length ? "(" + o.lts.map((l) => "pub &" + lt(l) + " u8").join(", ") + ")" : "(pub u8)";
     s += "    #[diplomat::opaque]\n    pub struct " + o.name + generics(o.lts, o.bounds) + fields + ";\n\n";
   }
-  for (const st of spec.structs) {
-    s += "    pub struct " + st.name + generics(st.lts, []) + " {\n";
-    for (const f of st.fields) s += "        pub " + f.name + ": " + (f.kind === "opaque" ? "&" + lt(f.lt) + " " + f.ty + tyArgs(f.args) : fieldSliceTy(f.enc, f.lt)) + ",\n";
+  for (const st of [...spec.structs, ...(spec.outs || [])]) {
+    s += (st.out ? "    #[diplomat::out]\n" : "") + "    pub struct " + st.name + generics(st.lts, st.bounds) + " {\n";
+    for (const f of st.fields) {
+      const refTy = "&" + lt(f.lt) + " " + f.ty + tyArgs(f.args || []);
+      s += "        pub " + f.name + ": " + (f.kind === "opaque" ? (f.opt ? "Option<" + refTy + ">" : refTy) : f.kind === "struct" ? f.ty + tyArgs(f.args) : f.opt ? "DiplomatOption<" + fieldSliceTy(f.enc, f.lt) + ">" : fieldSliceTy(f.enc, f.lt)) + ",\n";
+    }
     s += "    }\n\n";
   }
   for (const o of spec.opaques) {
@@ -171,11 +210,14 @@ export function outlives(spec, m) {
   for (const [l, s] of m.implBounds) add(l, s);
   const ref = (outer, args) => { if (outer) for (const a of args) if (a !== "static") add(a, outer); }; // &'x T<'y> implies 'y: 'x
   const defBounds = (tyName, args) => {
-    const def = spec.opaques.find((o) => o.name === tyName);
+    const def = [...spec.opaques, ...spec.structs, ...(spec.outs || [])].find((o) => o.name === tyName);
     if (def) for (const [l, s] of def.bounds) add(args[def.lts.indexOf(l)], args[def.lts.indexOf(s)]);
   };
   if (m.self) ref(m.self.lt, m.implLts);
-  for (const p of m.params) if (p.kind === "opaque" || p.kind === "optopaque") { ref(p.lt, p.args); defBounds(p.ty, p.args); }
+  for (const p of m.params) {
+    if (p.kind === "opaque" || p.kind === "optopaque") { ref(p.lt, p.args); defBounds(p.ty, p.args); }
+    if (p.kind === "struct") defBounds(p.ty, p.args);
+  }
   if (m.ret.lt) ref(m.ret.lt, m.ret.args);
   defBounds(m.ret.ty, m.ret.args);
   // closure
